@@ -138,6 +138,53 @@ def _call_with_globals(interp: Interp, unit: FuncUnit, args, kwargs, globs: Dict
     return interp.call_unit(unit, args, kwargs, None, closure)
 
 
+def interpret_build(ctx: Ctx, is_coro: bool, tags: Tuple[str, ...], single: bool):
+    """Abstractly interprets AnnotationDAGBuilder.build (whatever helpers it is split into) for a node map holding one
+    node of the given kind; the traversal, the validations and the node-map bookkeeping are stubbed.  Returns the list
+    of (abstract DAG object, builder object, calls of stubbed methods in order) over all resolutions of unknowns."""
+    p = ctx.p
+    from .bd import _builder_class, _traverse_function
+    b = _builder_class(ctx)
+    build = b.methods.get('build')
+    if build is None:
+        raise AnalysisError('AnnotationDAGBuilder.build not found (EX-3 / BD-6 anchor vanished)')
+    trav_fid = _traverse_function(ctx).fid
+    results = []
+
+    def run(oracle: Oracle):
+        calls: List[str] = []
+        stubs: Dict[str, Any] = {}
+        for m in b.methods.values():
+            if m.fid == trav_fid or 'validate' in m.name or m.name == '_add_node_to_map':
+                stubs[m.fid] = (lambda name: (lambda interp, a, k, s_: calls.append(name)))(m.name)
+        for u in p.functions.values():
+            if u.parent is None and u.cls is None and u.name == 'get_callable_run_method':
+                stubs[u.fid] = lambda interp, a, k, s_: 'RUNMETHOD'
+            if u.parent is None and u.cls is None and u.name == 'get_node_id':
+                stubs[u.fid] = lambda interp, a, k, s_: 'ID'
+        interp = Interp(p, oracle, stubs=stubs, ext_stubs={'inspect.iscoroutinefunction': lambda a, k: is_coro})
+        orig_call = interp.call
+
+        def call(f, a, k, node=None):
+            if isinstance(f, str):
+                return TOP
+            return orig_call(f, a, k, node)
+        interp.call = call          # type: ignore
+        graph = AObj(('ext', 'networkx.DiGraph'), {}, tag='builder-graph')
+        node_map = {'N': _node_obj(ctx, tags)}
+        builder = AObj(b, {'_node_map': node_map, '_dag': graph, '_recurrent_sub_graphs': [], '_synthetic_nodes': []})
+        in_node = AObj(('ext', 'Node'), {'tags': (), 'process': 'RUNMETHOD'}, tag='input-node')
+        out_node = None if single else AObj(('ext', 'Node'), {'tags': (), 'process': 'RUNMETHOD'}, tag='output-node')
+        res = interp.call_unit(build, [in_node, out_node], {}, builder)
+        return res, builder, graph, node_map, list(calls)
+
+    for o in enumerate_outcomes(run):
+        if o[0] != 'value':
+            raise AnalysisError(f'{build.fid}: abstract interpretation raises {o[1]}')
+        results.append(o[1])
+    return results
+
+
 def _declared(ctx: Ctx, is_coro: bool, tags: Tuple[str, ...]) -> Tuple[Set[str], str]:
     """Which pools the builder declares as needed (through build -> DAG kwargs) for a one-node map."""
     p = ctx.p
@@ -151,36 +198,22 @@ def _declared(ctx: Ctx, is_coro: bool, tags: Tuple[str, ...]) -> Tuple[Set[str],
     if ien is None:
         raise AnalysisError('executor-need function of the builder not found (EX-2 anchor vanished)')
 
-    def run(oracle: Oracle):
-        gcr = [u for u in p.functions.values() if u.name == 'get_callable_run_method' and u.parent is None]
-        stubs = {u.fid: (lambda interp, a, k, s_: 'RUNMETHOD') for u in gcr}
-        interp = Interp(p, oracle, stubs=stubs, ext_stubs={'inspect.iscoroutinefunction': lambda a, k: is_coro})
-        builder = AObj(b, {'_node_map': {'N': _node_obj(ctx, tags)}})
-        return interp.call_unit(ien, [], {}, builder)
-
-    outs = enumerate_outcomes(run)
-    vals = {o[1] for o in outs if o[0] == 'value'}
-    if len(vals) != 1:
-        raise AnalysisError(f'executor-need function is not deterministic over the abstract node ({vals})')
-    tup = vals.pop()
-    # map tuple positions to DAG kwargs through build()
-    build = b.methods['build']
-    names = None
-    for n in ast.walk(build.node):
-        if isinstance(n, ast.Assign) and isinstance(n.value, ast.Call) and isinstance(n.value.func, ast.Attribute) \
-                and n.value.func.attr == ien.name and isinstance(n.targets[0], ast.Tuple):
-            names = [e.id for e in n.targets[0].elts if isinstance(e, ast.Name)]
-    if names is None or len(names) != len(tup):
-        raise AnalysisError('build() does not unpack the executor-need tuple (EX-3 anchor vanished)')
-    val_of = dict(zip(names, tup))
-    kwargs = {}
-    for n in ast.walk(build.node):
-        if isinstance(n, ast.Call) and (dotted(n.func) or '').split('.')[-1] == 'DAG':
-            for k in n.keywords:
-                if k.arg in ('is_process_pool_needed', 'is_thread_pool_needed') and isinstance(k.value, ast.Name):
-                    kwargs[k.arg] = val_of.get(k.value.id)
-    if set(kwargs) != {'is_process_pool_needed', 'is_thread_pool_needed'}:
-        raise AnalysisError('build() does not pass the pool flags to DAG(...) (EX-3 anchor vanished)')
+    kwargs = None
+    for single in (False, True):
+        for res, builder, graph, node_map, calls in interpret_build(ctx, is_coro, tags, single):
+            if not isinstance(res, AObj):
+                raise AnalysisError('build() does not return a DAG object (EX-3 anchor vanished)')
+            kw = {k: res.attrs.get(k) for k in ('is_process_pool_needed', 'is_thread_pool_needed')}
+            if any(v is None or v is TOP for v in kw.values()):
+                raise AnalysisError(f'build() does not pass decided pool flags to DAG(...) ({kw}) (EX-3 anchor vanished)')
+            kw = {k: bool(v) for k, v in kw.items()}
+            if kwargs is None:
+                kwargs = kw
+            elif kwargs != kw:
+                # the flags differ between the traversed and the single-node path / between resolutions: keep the weaker claim
+                kwargs = {k: kwargs[k] and kw[k] for k in kw}
+    if kwargs is None:
+        raise AnalysisError('build() could not be interpreted (EX-3 anchor vanished)')
     # which registries DAG.run validates for these flags
     dag_run = p.func(DAG_RUN)
     regs = _registries(ctx)
@@ -194,11 +227,32 @@ def _declared(ctx: Ctx, is_coro: bool, tags: Tuple[str, ...]) -> Tuple[Set[str],
             stubs[m.fid] = (lambda kind: (lambda interp, a, k, s_: done.append(kind)))(kind)
         interp = Interp(p, oracle, stubs=stubs)
         dag = AObj(dag_run.cls, dict(kwargs))
-        val = dag_run.cls.methods.get('_start_runtime_validation')
-        if val is None:
-            raise AnalysisError('runtime validation method not found')
-        _call_with_globals2(interp, val, dag, {'process_pool_registry': AObj(regs['process'], {}),
-                                               'threads_pool_registry': AObj(regs['thread'], {})})
+        # DAG.run itself is interpreted up to the construction of the run manager (stubbed): whatever validation it
+        # performs - inline, in one helper or several - is what counts
+        mgr_cls = ctx.manager_class()
+        orig_construct = interp.construct
+
+        class _Stop(Exception):
+            pass
+
+        def construct(c, args, kwargs):
+            if c.ref is mgr_cls:
+                raise _Stop()
+            return orig_construct(c, args, kwargs)
+        interp.construct = construct      # type: ignore
+        dag.attrs.setdefault('run_manager', AClass(mgr_cls))
+        orig_lookup = interp.lookup
+        globs = {'process_pool_registry': AObj(regs['process'], {}), 'threads_pool_registry': AObj(regs['thread'], {})}
+
+        def lookup(name, env):
+            if name in globs:
+                return globs[name]
+            return orig_lookup(name, env)
+        interp.lookup = lookup      # type: ignore
+        try:
+            interp.call_unit(dag_run, [TOP], {}, dag)
+        except _Stop:
+            pass
         return tuple(done)
 
     for o in enumerate_outcomes(run2):
@@ -219,40 +273,30 @@ def _call_with_globals2(interp: Interp, unit: FuncUnit, self_obj, globs):
 
 
 def rule_flags_on_every_path(ctx: Ctx, out: Collector) -> bool:
-    """EX-3: every path of build() to the construction of the DAG classifies the execution mode of the nodes
-    (the pool flags are computed for single-node DAGs as well as for traversed ones)."""
+    """EX-3: on every path of build() (the traversed and the single-node one) the pool flags handed to DAG(...) are the
+    classification of the node map: for a map holding a synchronous, untagged node the thread-pool flag is set; for
+    one holding a process-tagged node the process-pool flag is set (build() is interpreted abstractly, whatever
+    helpers it is split into)."""
     from .bd import _builder_class
     b = _builder_class(ctx)
     build = b.methods['build']
-    g = ctx.graph(build.fid, depth=6)
-    ctor = [ev for ev in g.events('call') if ev.inst.parent is None and any(t[0] == 'class' and t[1].name == 'DAG' for t in ev.info.get('targets', ()))]
-    if not ctor:
-        raise AnalysisError('build() does not construct a DAG (EX-3 anchor vanished)')
-    classify = {ev.id for ev in g.events('call') if any(t[0] == 'ext' and t[1] == 'inspect.iscoroutinefunction' for t in ev.info.get('targets', ()))
-                and 'builder' in ev.inst.unit.module.name}
-    from ..cfg import find_path
-    # the calls of build()'s own frame whose activation contains the classification
-    barrier = set()
-    for ev in g.events('call'):
-        callee = ev.info.get('callee')
-        if ev.inst.parent is not None or callee is None:
-            continue
-        for cid in classify:
-            cur = g.evs[cid].inst
-            while cur is not None and cur is not callee:
-                cur = cur.parent
-            if cur is callee:
-                barrier.add(ev.id)
-    path = find_path(g, g.entry, {ctor[0].id}, avoid=barrier, labels=EXC_LABELS)
-    # a classification that only happens inside the traversal loop is skipped when the loop body never runs:
-    # require a classification that is not under the worklist loop, or both branches of build() to contain one
     cons = f'{build.module.name}::{build.qualname}::pool flags are computed on every path to DAG(...)'
-    if path is None and classify:
-        out.ok('EX-3', cons, ctor[0].where(), 'every path to DAG(...) passes the execution-mode classification of the node map')
+    problems = []
+    for single in (False, True):
+        for tags, flag in (((), 'is_thread_pool_needed'), (('process',), 'is_process_pool_needed')):
+            for res, builder, graph, node_map, calls in interpret_build(ctx, False, tags, single):
+                if not isinstance(res, AObj):
+                    raise AnalysisError('build() does not construct a DAG (EX-3 anchor vanished)')
+                v = res.attrs.get(flag)
+                if v is not True:
+                    problems.append(f'{"single-node" if single else "traversed"} path, synchronous node tagged {tags or "()"}: {flag}={v!r}')
+    if not problems:
+        out.ok('EX-3', cons, ctx.p.loc(build, build.node), 'traversed and single-node paths both classify the node map and pass the flags to DAG(...)')
         return True
-    out.bad('EX-3', cons, ctor[0].where(), 'a path of build() constructs the DAG without classifying the execution mode of its nodes '
-                                           '(e.g. the single-node path): both pool flags stay False, the pre-run validation is skipped and a '
-                                           'missing pool surfaces as an ordinary node error in the middle of the run', path_text(g, path or []))
+    out.bad('EX-3', cons, ctx.p.loc(build, build.node),
+            'a path of build() constructs the DAG without (the result of) classifying the execution mode of its nodes: '
+            + '; '.join(sorted(set(problems))[:3]) + ' - the pre-run validation is skipped and a missing pool surfaces as an ordinary '
+            'node error in the middle of the run')
     return False
 
 
